@@ -33,6 +33,8 @@ class Gen:
         self.reset_kind = None
         self.on_reset = False
         self.push = False
+        self.comments = True  # std.comment(...) statements: emitted as VHDL comments, no effect on behaviour or timing
+        self.ncomment = 0
         self.partial = False  # slice / bit writes of the targets that have a default (C04: noreset objects written partially)
 
     # ---- expressions -------------------------------------------------------------------------
@@ -89,6 +91,9 @@ class Gen:
             lo = rs.below(hi + 1)
             src = rs.choice([["in", "d"], ["v", rs.choice(self.vars)], ["port", rs.choice(["q", "r"])], ["addk", ["in", "d"], rs.range(1, 3)]])
             return ["sigs", rs.choice([t for t in self.targets if t != "nd"]), hi, lo, src]
+        if self.comments and rs.below(8) == 0:
+            self.ncomment += 1
+            return ["comment", f"c{self.ncomment}"]
         c = rs.below(6)
         if c < 2:
             return self.mark()
@@ -265,6 +270,8 @@ def r_block(stmts, ind, out):
         if k == "sig":
             e = s[2]
             out.append(f"{pad}self.{s[1]} <<= {r_expr(e)}")
+        elif k == "comment":
+            out.append(f"{pad}std.comment({s[1]!r})")
         elif k == "sigs":
             _, t, hi, lo, e = s
             if hi == lo:
@@ -332,6 +339,12 @@ def render(prog, attrs=None):
         "from cohdl import Bit, BitVector, Unsigned, Signed, Port, Signal, Variable, Null, Full, true, false",
         "from cohdl import std",
         "",
+    ]
+    if prog.get("tap"):
+        # a sub-entity whose inout port is connected to one of the targets (it never drives it): the connection must not
+        # change the target's default / reset behaviour
+        L += ["class Tap(cohdl.Entity):", f"    p = Port.inout(Unsigned[{W}])", "    def architecture(self):", "        pass", ""]
+    L += [
         "class E(cohdl.Entity):",
         "    clk = Port.input(Bit)",
     ]
@@ -361,6 +374,8 @@ def render(prog, attrs=None):
         "    def architecture(self):",
         "        accv = Variable[Unsigned[8]](0)",
     ]
+    if prog.get("tap"):
+        L.append(f"        Tap(p=self.{prog['tap']})")
     for v, init in prog["vars"].items():
         L.append(f"        {v} = Variable[Unsigned[{W}]]({init})")
     for sub in prog["subs"]:
